@@ -1235,8 +1235,8 @@ def _inline_in_function(fn, helpers, chelp, inlined):
                 stmt_yields = {id(x.value) for x in _walk_fn(h.fn) if isinstance(x, ast.Expr) and isinstance(x.value, ast.Yield)}
                 if any(id(n) not in stmt_yields or n.value is None for n in plain):
                     continue
-                if any(isinstance(x, ast.Continue) for b in st.body for x in _walk_stmt(b)):
-                    continue
+                if any(isinstance(x, ast.Continue) for b in st.body for x in _walk_stmt(b)) and not _yields_in_loop_tail(h.fn):
+                    continue   # (`continue` in the consumer = go on behind the yield: the same thing only when that is "next iteration")
             if any(isinstance(n, ast.Return) and n.value is not None for n in _walk_fn(h.fn)):
                 continue
             if _break_at_level(st.body):
@@ -1289,6 +1289,28 @@ def _inline_in_function(fn, helpers, chelp, inlined):
             i += len(new) - 1
     ExprInline().visit(fn)
     return changed
+
+
+def _yields_in_loop_tail(fn):
+    """every `yield E` statement of the generator is the last thing an iteration of its innermost enclosing loop does (so that
+    a consumer's `continue`, which resumes the generator behind the yield, is a `continue` of that loop)"""
+    def tail(stmts, in_loop):
+        for i, st in enumerate(stmts):
+            last = i == len(stmts) - 1
+            if isinstance(st, ast.Expr) and isinstance(st.value, ast.Yield):
+                if not (in_loop and last):
+                    return False
+            elif isinstance(st, (ast.For, ast.While)):
+                if not tail(st.body, True) or any(isinstance(x, ast.Yield) for b in st.orelse for x in ast.walk(b)):
+                    return False
+            elif isinstance(st, ast.If):
+                inner = in_loop and last
+                if not tail(st.body, inner) or not tail(st.orelse, inner):
+                    return False
+            elif any(isinstance(x, (ast.Yield, ast.YieldFrom)) for x in ast.walk(st)):
+                return False
+        return True
+    return tail(_strip_doc(fn.body), False)
 
 
 def _break_at_level(stmts):
